@@ -221,7 +221,15 @@ func runC01(r *rt.Runner) {
 			"/F << /FontType "+h+" >> definefont pop", "/F << /FontType 1 /Private << /Subrs "+h+" /lenIV "+h+" /BlueValues "+h+" >> /CharStrings << /a "+h+" >> /Encoding [ "+h+" ] /FontMatrix [ "+h+" ] /FontInfo << /version "+h+" /Notice "+h+" >> >> definefont pop",
 			"/CIDInit /ProcSet findresource begin 12 dict begin begincmap /CMapName "+h+" def /CIDSystemInfo "+h+" def /WMode "+h+" def /CMapType "+h+" def endcmap /N currentdict /CMap defineresource pop end end",
 			"/CIDInit /ProcSet findresource begin 12 dict begin begincmap "+h+" usecmap endcmap /N currentdict /CMap defineresource pop end end",
-			"/N << /CMapName "+h+" /CodeMap "+h+" /CodeSpaceRanges "+h+" >> /CMap defineresource pop")
+			"/N << /CMapName "+h+" /CodeMap "+h+" /CodeSpaceRanges "+h+" >> /CMap defineresource pop",
+			// the same places overwritten AFTER a successful registration (the
+			// checks made by defineresource / definefont are then in the past)
+			"/CIDInit /ProcSet findresource begin 12 dict begin begincmap /CMapName /N def 1 begincodespacerange <00> <ff> endcodespacerange endcmap /N currentdict /CMap defineresource pop /CodeMap "+h+" def end end",
+			"/CIDInit /ProcSet findresource begin 12 dict begin begincmap /CMapName /N def endcmap /N currentdict /CMap defineresource /CodeMap "+h+" put /N /CMap findresource /CMapName "+h+" put end end",
+			"/CIDInit /ProcSet findresource begin 12 dict begin begincmap /CMapName /N def endcmap /N currentdict /CMap defineresource pop end end /N /CMap findresource dup /WMode "+h+" put dup /CIDSystemInfo "+h+" put dup /CMapType "+h+" put /CodeMap "+h+" put",
+			"/CIDInit /ProcSet findresource begin 12 dict begin begincmap /CMapName /N def endcmap /N currentdict /CMap defineresource pop end end /N /CMap findresource { pop "+h+" def } forall",
+			"/F << /FontType 1 /FontName /F /FontInfo 2 dict /Private 2 dict /CharStrings 2 dict /Encoding StandardEncoding /FontMatrix [ 0.001 0 0 0.001 0 0 ] >> definefont dup /Private "+h+" put dup /CharStrings "+h+" put dup /FontInfo "+h+" put /Encoding "+h+" put",
+			"/F << /FontType 1 /FontName /F /FontInfo 2 dict /Private 2 dict /CharStrings 2 dict /Encoding StandardEncoding /FontMatrix [ 0.001 0 0 0.001 0 0 ] >> definefont pop /F findfont /FontMatrix "+h+" put FontDirectory /F get /FontName "+h+" put /F findfont /Private get /Subrs "+h+" put /F findfont /CharStrings get /a "+h+" put")
 	}
 	for _, text := range post {
 		text := text
@@ -293,6 +301,38 @@ func runC01(r *rt.Runner) {
 				c.Nontrivial(append([]byte(kind+"|"), data...), func() string { return kind + ": " + head(data, 120) })
 			})
 		}
+	}
+
+	// ---- (2b) data structures far deeper than any literal can be: the scanner
+	// limits `{` nesting to 1000 levels, but a loop with `put` builds a chain
+	// whose depth is limited by the operation budget alone. With a budget that
+	// is "set" but generous (C01 names no upper limit) a chain of 8 million
+	// levels costs 1.2e8 operations and a few seconds; an operator that walks
+	// the chain recursively then needs more than the 1 GB goroutine stack and
+	// the process dies (`bind` did: known-findings "deep-structure"). Three
+	// cases, ~1 GB of heap each, on different shards.
+	for i, text := range []string{
+		"{0} 8000000 { 1 array cvx dup 0 4 -1 roll put } repeat bind pop",
+		"{0} 8000000 { 1 array cvx dup 0 4 -1 roll put } repeat dup bind exec pop",
+		"[0] 8000000 { 1 array dup 0 4 -1 roll put } repeat dup length pop dup { pop } forall dup 1 array copy pop dup type pop cvx bind pop",
+	} {
+		text := text
+		r.Case(fmt.Sprintf("deep-structure/%d", i), func(c *rt.C) {
+			c.SetDetail(func() string { return "MaxOps=2000000000: " + text })
+			postscript.VerifStepHook = func(_ *postscript.Interpreter, s postscript.VerifStep) { rt.Progress.Add(1) }
+			defer func() { postscript.VerifStepHook = nil }()
+			intp := postscript.NewInterpreter()
+			intp.MaxOps = 2000000000
+			err := intp.ExecuteString(text)
+			if err != nil {
+				c.Count("deep structure: ended with an error")
+				c.Inconclusive(fmt.Sprintf("the deep-structure program did not run to its end: %v", err))
+			} else {
+				c.Count("deep structure: walked")
+			}
+			r.Count("deep structure: operations", int64(intp.NumOps))
+			c.Nontrivial([]byte("deep|"+text), func() string { return text })
+		})
 	}
 
 	// ---- (3)+(4) hostile charstrings and font dictionaries in valid containers
@@ -435,6 +475,55 @@ func runC01(r *rt.Runner) {
 			c.Count("hostile CMap files")
 			c.Nontrivial(data, nil)
 		})
+	}
+
+	// ---- (7b) structured comments: the readers look at `%%Key: value` lines
+	// after the program has run (the creation date of a font is taken from one),
+	// so their values are input as hostile as everything else
+	{
+		dscWords := []string{"(", ")", "(", ")", " ", "  ", "Mon", "Jan", "2", "02", "15:04:05", "2006", "+0100", "-0700", "UTC", "Z", "MST", "-", ":", "D:", "20060102150405", "\x00",
+			"\xe9", "99999999999999999999", "am", "PM", "/", "T", ".5", ",", "2006-01-02", "1/2/06", "\\", "%%", "%", "+", "\t", "Sat", "February", "31", "24:00:00", "1e9", "UTC+3", "GMT"}
+		dscKeys := []string{"CreationDate", "CreationDate", "CreationDate", "Title", "Creator", "VMusage", "BeginResource", "EndComments", "+", "", "For", "BoundingBox", "Pages"}
+		base := ref.RenderType1(rand.New(rand.NewPCG(7, 7)), &ref.WFont{FontName: "Dsc", Info: map[string]string{}, Private: map[string]string{}, StdEncoding: true,
+			Glyphs: []*ref.WGlyph{{Name: ".notdef", Den: 1, WX: 500}}}, &ref.WLayout{Container: "plain", LenIV: 4})
+		nl := bytes.IndexByte(base, '\n') + 1
+		nDsc := r.N(20000, 400000)
+		for k := 0; k < nDsc; k++ {
+			r.Case("hostile-dsc", func(c *rt.C) {
+				rng := c.Rand()
+				var lines strings.Builder
+				for i, n := 0, 1+rng.IntN(3); i < n; i++ {
+					lines.WriteString("%%" + dscKeys[rng.IntN(len(dscKeys))])
+					lines.WriteString([]string{": ", ":", " ", ":\t", ""}[rng.IntN(5)])
+					for j, m := 0, rng.IntN(7); j < m; j++ {
+						lines.WriteString(dscWords[rng.IntN(len(dscWords))])
+						if rng.IntN(2) == 0 {
+							lines.WriteString(" ")
+						}
+					}
+					if rng.IntN(40) == 0 {
+						lines.WriteString(strings.Repeat(dscWords[rng.IntN(len(dscWords))], 1+rng.IntN(20000)))
+					}
+					lines.WriteString([]string{"\n", "\r", "\r\n"}[rng.IntN(3)])
+				}
+				var data []byte
+				switch rng.IntN(3) {
+				case 0: // behind the first line
+					data = append(append(append(data, base[:nl]...), lines.String()...), base[nl:]...)
+				case 1: // behind the program
+					data = append(append(data, base...), lines.String()...)
+				default: // both
+					data = append(append(append(append(data, base[:nl]...), lines.String()...), base[nl:]...), lines.String()...)
+				}
+				c.SetDetail(func() string { return fmt.Sprintf("font file with the comment lines %q", lines.String()) })
+				feed(kType1, data)
+				feed(kCMap, data)
+				cm := append([]byte("%!PS-Adobe-3.0 Resource-CMap\n"+lines.String()), []byte("/CIDInit /ProcSet findresource begin 12 dict begin begincmap /CMapName /N def endcmap CMapName currentdict /CMap defineresource pop end end\n"+lines.String())...)
+				feed(kCMap, cm)
+				c.Count("files with hostile structured comments")
+				c.Nontrivial([]byte("dsc|"+lines.String()), func() string { return head([]byte(lines.String()), 100) })
+			})
+		}
 	}
 
 	// ---- (8) byte-level mutation of valid files of every kind
